@@ -124,6 +124,15 @@ CLASSES = {
         "methods": {"_execute": {"pure": False, "returns": DICT(STR, ANY), "raises": ["Exception"], "coroutine": True}},
     },
     "SyncFunctionNodeExecutor": {"module": "hypergraph.runners.sync.executors.function_node", "file": "runners/sync/executors/function_node.py", "attrs": {}, "methods": {}},
+    "DiskCache": {
+        "module": "hypergraph.cache", "file": "cache.py",
+        "attrs": {"_cache": OBJ("_DiskcacheBackend"), "_hmac_key": ANY, "_HMAC_SUFFIX": STR},
+        "methods": {},
+    },
+    # diskcache.Cache (external, assumed contract A4): get/set/delete are total
+    "_DiskcacheBackend": {"module": "diskcache", "file": None, "attrs": {},
+                          "methods": {"get": {"pure": False, "returns": ANY, "raises": []}, "set": {"pure": False, "returns": ANY, "raises": []}, "delete": {"pure": False, "returns": ANY, "raises": []}}},
+    "InMemoryCache": {"module": "hypergraph.cache", "file": "cache.py", "attrs": {"_max_size": OPT(INT), "_data": DICT(STR, ANY)}, "methods": {}},
     "SyncRunner": {
         "module": "hypergraph.runners.sync.runner", "file": "runners/sync/runner.py",
         "attrs": {"_cache": ANY, "_executors": DICT(ANY, ANY), "default_max_iterations": INT},
@@ -190,6 +199,8 @@ OPAQUE = {
     "set_concurrency_limiter": {"raises": [], "returns": OBJ("Token")},
     "reset_concurrency_limiter": {"raises": [], "returns": NONE_T},
     "Semaphore": {"raises": [], "returns": ANY},
+    # HMAC-SHA256 over (key, bytes) (assumed contract A4: total; idealised as injective under a fixed secret)
+    "_compute_hmac_bytes": {"raises": [], "returns": STR},
 }
 
 
@@ -249,7 +260,33 @@ def _lib_time(ex, args, kwargs, s):
     yield s, Val(smt.fresh_v("time"), ANY)
 
 
+def _lib_compare_digest(ex, args, kwargs, s):
+    """hmac.compare_digest (assumed contract A4): total, returns a bool."""
+    v = BVal(smt.fresh_bool("digest_eq"))
+    s.env["_ret_compare_digest"] = v
+    s.trace.append(("call", "compare_digest", {"args": args}))
+    yield s, v
+
+
+def _lib_pickle_loads(ex, args, kwargs, s):
+    """pickle.loads: may raise any Exception on malformed bytes, else returns an opaque value."""
+    from pyvc.calls import opaque_result
+    s.trace.append(("call", "pickle.loads", {"args": args}))
+    yield from opaque_result(ex, "pickle.loads", s, ANY, {"raises": ["Exception"]})
+
+
+def _lib_pickle_dumps(ex, args, kwargs, s):
+    from pyvc.calls import opaque_result
+    s.trace.append(("call", "pickle.dumps", {"args": args}))
+    yield from opaque_result(ex, "pickle.dumps", s, ANY, {"raises": ["PicklingError", "TypeError", "AttributeError"]})
+
+
 LIBRARY = {
+    "_hashlib.compare_digest": _lib_compare_digest,
+    "hmac.compare_digest": _lib_compare_digest,
+    "_operator._compare_digest": _lib_compare_digest,
+    "_pickle.loads": _lib_pickle_loads,
+    "_pickle.dumps": _lib_pickle_dumps,
     "time.time": _lib_time,
     "warnings.warn": _lib_warn,
     "_warnings.warn": _lib_warn,
